@@ -91,6 +91,18 @@ func runC15(args []string, in *bufio.Scanner, out *bufio.Writer) {
 						return "err"
 					}
 					return fmt.Sprintf("ins:%d", rid.GetSlotNum())
+				case "J": // insert as redo/undo do: the tuple carries the RID of the log record
+					b := rowBytes(atoi64(f[2]), atoi64(f[3]))
+					hint := page.RID{PageID: pid, SlotNum: uint32(atoi64(f[1]))}
+					t := tuple.NewTuple(&hint, uint32(len(b)), b)
+					rid, err := tp.InsertTuple(t, logMgr, lm, txn)
+					if err != nil {
+						if err == access.ErrNotEnoughSpace {
+							return "nospace"
+						}
+						return "err"
+					}
+					return fmt.Sprintf("ins:%d", rid.GetSlotNum())
 				case "U":
 					b := rowBytes(atoi64(f[2]), atoi64(f[3]))
 					t := tuple.NewTuple(nil, uint32(len(b)), b)
